@@ -284,7 +284,12 @@ CLAIMED = {
               "checks): every member of each invalid pin class (non-positive dimension, pitch < diameter, clad > radius, wire "
               "thicker than the pin gap, bundle wider than the smallest duct) and duct class (odd number of values, duct not "
               "smaller than the pitch) is rejected, and acceptance implies exactly the positivity / fit facts the geometry and "
-              "step models need.  PARTIAL: the model is tied to the real reader by differential classification on valid "
+              "step models need.  Axial regions (Model/AcceptRegions.lean, Props/C18Regions.lean): for an accepted list of user regions the "
+              "separately sorted lower / upper bounds re-create the user's own pairs, every region has positive height, lies in "
+              "the core, regions are pairwise disjoint, exactly one free space remains and the rodded bounds enclose exactly it "
+              "(heights + rodded span = core length); inverted, zero-height, overlapping, out-of-core and core-filling layouts are "
+              "rejected wherever they stand in the list - tied to the real check_unrodded_regions bit for bit (verdict, error kind, "
+              "rodded bounds) on generated layouts.  PARTIAL: the model is tied to the real reader by differential classification on valid "
               "generated inputs and single-fault perturbations (28 fault classes across the input keys); independently every "
               "invalid class must end in SystemExit before any temperature is computed and every valid generated input must "
               "be set up and swept (60 planes) without exception or hang; a single-key perturbation sweep (every numeric "
